@@ -1,7 +1,7 @@
 (* C24 — The remote-write concurrency gate is never exceeded.
    Property theorems only. The LTS (Model/C24.v) has any number of request
    threads of the protobuf and OTLP endpoints around one gate of capacity max;
-   labels: arrive (queue in Start), admit, cancel-while-queued, leave the write
+   labels: arrive (queue in Start), admission, cancel-while-queued, leave the write
    path, deferred Done. Whether Done runs after a FAILED Start is computed from
    the statement order of receiveHTTP / receiveOTLPHTTP (Gen/C24.v, regenerated
    from the source on every run). *)
